@@ -6,11 +6,32 @@
 //   {"k":"bytes","z":[..],"wf":b,"cs":[..],"w":[..],"ascii":b,"up":[..],"lo":[..],"p":[..]}   arbitrary bytes
 #include "c08_common.h"
 #include "vrun.h"
+#include <clocale>
+#include <set>
+#include <asl/JSON.h>
+#include <asl/Xml.h>
 
 using vrun::Outcome;
 
 static std::string show(const std::string& s) { return vj::codes(s); }
 static std::string show(const std::vector<int>& v) { return vj::intlist(v.begin(), v.end()); }
+
+// Deviations.  UtfLax.tla / UtfCase.tla / UtfCaseData.tla also say what the *present* library returns where the property
+// demands no particular value (ill-formed input; which letters have a case partner).  A difference there is not a
+// violation: it is appended to the file named by C08_DEVLOG (one line per case and kind) and counted by checks/C08.py.
+static std::set<std::string> g_caseDeviations; // kinds already noted for the current case (cleared by runCase)
+static void deviation(const char* kind, const std::string& what)
+{
+	if (!g_caseDeviations.insert(kind).second) return;
+	const char* path = getenv("C08_DEVLOG");
+	if (!path || !*path) return;
+	FILE* f = fopen(path, "a");
+	if (!f) return;
+	std::string line = std::string(kind) + "\t" + what.substr(0, 300) + "\n";
+	fwrite(line.data(), 1, line.size(), f);
+	fclose(f);
+}
+#define DEVIATE(kind, cond, ...) do { if (!(cond)) { char _b[600]; snprintf(_b, sizeof _b, __VA_ARGS__); deviation(kind, _b); return ""; } } while (0)
 
 #define CHECK(cond, ...) do { if (!(cond)) { char _b[600]; snprintf(_b, sizeof _b, __VA_ARGS__); return std::string(_b); } } while (0)
 
@@ -71,6 +92,30 @@ static std::string checkEncoders(const std::vector<int>& cs, const std::string& 
 	return "";
 }
 
+// The two text decoders that turn escapes into UTF-8 go through the same encoders: JSON \uXXXX (one escape per UTF-16
+// unit of the specification's Enc16(c), through utf16toUtf8) and XML numeric character references (utf32toUtf8).
+// Expected value: the specification's Enc8(c), between two sentinels.
+static std::string checkEscapes(int code, const std::string& e8, const std::vector<int>& e16)
+{
+	char b[80];
+	std::string js = "\"x";
+	for (size_t i = 0; i < e16.size(); i++) { snprintf(b, sizeof b, "\\u%04x", e16[i]); js += b; }
+	js += "y\"";
+	Var v = Json::decode(js.c_str());
+	std::string want = "x" + e8 + "y";
+	if (!v.is(Var::STRING)) return "Json::decode(" + js + ") is not a string";
+	String t = v;
+	if (std::string(*t, (size_t)t.length()) != want) return "Json::decode(" + js + ") = " + show(std::string(*t, (size_t)t.length())) + ", specification: x Enc8(c) y = " + show(want);
+	for (int hex = 0; hex < 2; hex++)
+	{
+		snprintf(b, sizeof b, hex ? "<a>x&#x%X;y</a>" : "<a>x&#%d;y</a>", code);
+		Xml x = Xml::decode(b);
+		String u = x.text();
+		if (std::string(*u, (size_t)u.length()) != want) return std::string("Xml::decode(") + b + ").text() = " + show(std::string(*u, (size_t)u.length())) + ", specification: x Enc8(c) y = " + show(want);
+	}
+	return "";
+}
+
 static Outcome doBlock(const vj::Value& c)
 {
 	const vj::Value& e = c["e"];
@@ -106,6 +151,21 @@ static Outcome doBlock(const vj::Value& c)
 			bool letters = e[i][3].i() != e[i][4].i();
 			if (m.empty() && String(sw).equalsNocase(s) != letters && (code ^ 0x20) != 0)
 				m = "equalsNocase of ASCII " + std::to_string(code) + " with its case-flipped byte";
+		}
+		// (all code points below U+1000, then every eighth one and the ones at the ends of each low-surrogate range)
+		if (m.empty() && (code < 0x1000 || code % 8 == 0 || (code & 0x3ff) == 0x3ff)) m = checkEscapes(code, e8, e16);
+		if (m.empty() && c.has("cid") && c["cid"].b && code >= c["cut"].i())
+		{
+			// outside the present case table UtfCase.tla makes both mappings the identity; a library with a larger table
+			// differs here without breaking the property (deviation); the length bound is judged in checkValid
+			String s(e8.c_str());
+			String u = s.toUpperCase(), l = s.toLowerCase();
+			if (std::string(*u, (size_t)u.length()) != e8 || std::string(*l, (size_t)l.length()) != e8)
+			{
+				char h[64];
+				snprintf(h, sizeof h, "U+%04X: has a case mapping, UtfCase: identity from %d on", code, c["cut"].i());
+				deviation("case-table", h);
+			}
 		}
 		if (m.empty())
 		{
@@ -187,11 +247,49 @@ static std::string checkBytes(const vj::Value& c, int placement)
 	return "";
 }
 
+// The transcription of the library's loops (spec/UtfLax.tla, spec/UtfCase.tla) against the real functions.  On well-formed
+// input the decoders' results are the standard's and a difference is a failure (same values as checkValid); everything
+// else - any result on ill-formed input, and which case partner the tables hold - is recorded as a deviation only.
+// What the property demands on ill-formed input (bounds, termination, equalsNocase <=> equal lower-cased forms) is
+// judged on the real results by checkBytes / doBytes.
+static std::string checkLax(const vj::Value& c, int placement)
+{
+	if (!c.has("lx")) return "";
+	const vj::Value& x = c["lx"];
+	std::string z = c["z"].bytes();
+	bool wf = c["wf"].b;
+	Obs o = observe(z, placement);
+	CHECK(o.err.empty(), "%s", o.err.c_str());
+	String s(z.c_str());
+	String back = String::fromCodes(s.chars());
+	std::string rt(*back, (size_t)back.length());
+	if (wf)
+	{
+		CHECK(o.it == x["it"].ints() && o.cs == x["c32"].ints() && o.c32 == x["c32"].ints() && o.w == x["w"].ints() && o.dw == x["dw"].ints() &&
+		      o.wlen == (int)x["dw"].size() && o.b8 == x["b8"].bytes() && o.n == x["n"].i() && rt == x["rt"].bytes(),
+		      "well-formed text %s: a decoder's result differs from the standard's (lx)", show(z).c_str());
+	}
+	else
+	{
+		DEVIATE("lax-decoders", o.it == x["it"].ints() && o.cs == x["c32"].ints() && o.c32 == x["c32"].ints() && o.w == x["w"].ints() &&
+		        o.dw == x["dw"].ints() && o.wlen == (int)x["dw"].size() && o.b8 == x["b8"].bytes() && o.n == x["n"].i() && rt == x["rt"].bytes(),
+		        "%s: it %s c32 %s w %s n %ld; UtfLax: it %s c32 %s w %s n %d", show(z).c_str(), show(o.it).c_str(), show(o.c32).c_str(), show(o.w).c_str(), o.n,
+		        show(x["it"].ints()).c_str(), show(x["c32"].ints()).c_str(), show(x["w"].ints()).c_str(), x["n"].i());
+	}
+	std::string p = c["p"].bytes(), q = c["q"].bytes();
+	DEVIATE(wf ? "case-table" : "lax-case", o.up == x["up"].bytes() && o.lo == x["lo"].bytes() && eqNocase(z, p, placement) == x["eqp"].b &&
+	        eqNocase(z, q, placement) == x["eqq"].b && eqNocase(q, z, placement) == x["eqr"].b,
+	        "%s: upper %s lower %s; UtfCase: upper %s lower %s (or an equalsNocase verdict)", show(z).c_str(), show(o.up).c_str(), show(o.lo).c_str(),
+	        show(x["up"].bytes()).c_str(), show(x["lo"].bytes()).c_str());
+	return "";
+}
+
 static Outcome doBytes(const vj::Value& c)
 {
 	std::string z = c["z"].bytes(), p = c["p"].bytes();
 	std::string m;
 	for (int pl = 0; pl < 3 && m.empty(); pl++) m = checkBytes(c, pl);
+	for (int pl = 0; pl < 3 && m.empty(); pl++) m = checkLax(c, pl);
 	if (m.empty() && c["ascii"].b)
 	{
 		Obs o = observe(z, 0);
@@ -216,12 +314,239 @@ static Outcome doBytes(const vj::Value& c)
 	return res;
 }
 
+// one code point of the case-table walk (spec/MC_UtfCase.tla).  Judged on the real functions (failures): no growth, ASCII =
+// C locale, toLowerCase idempotent, and for every partner d in 1..hi  equalsNocase(c, d) = equalsNocase(d, c) =
+// (toLowerCase(c) == toLowerCase(d)).  (That the results are well-formed UTF-8 is judged by TLC on the recorded walk,
+// Trace_Utf "cp" events.)  Compared with the transcribed tables (deviations only): the mapped bytes and the set of
+// accepted partners - a table made from another Unicode version differs there without breaking the property.
+static Outcome doCp(const vj::Value& c)
+{
+	int code = c["c"].i(), hi = c["hi"].i();
+	Outcome res;
+	if (code == 0) return res; // the terminator: not expressible as text in this API
+	std::string e8 = c["e8"].bytes(), up = c["up"].bytes(), lo = c["lo"].bytes();
+	std::string m;
+	bool tableDiff = false;
+	std::string realLo;
+	for (int pl = 0; pl < 3 && m.empty(); pl++)
+	{
+		Obs o = observe(e8, pl);
+		if (!o.err.empty()) m = o.err;
+		else if (o.up.size() > e8.size() || o.lo.size() > e8.size()) m = "case mapping longer than its input: upper " + show(o.up) + " lower " + show(o.lo);
+		else if (code < 128 && (o.up != up || o.lo != lo)) m = "ASCII: upper " + show(o.up) + " lower " + show(o.lo) + ", C locale: " + show(up) + " " + show(lo);
+		else if (lowerOf(o.lo) != o.lo && memchr(o.lo.data(), 0, o.lo.size()) == 0) m = "toLowerCase() is not idempotent: " + show(o.lo) + " -> " + show(lowerOf(o.lo));
+		else if (pl > 0 && o.lo != realLo) m = "toLowerCase() depends on the storage placement";
+		if (o.up != up || o.lo != lo) tableDiff = true;
+		realLo = o.lo;
+	}
+	if (m.empty())
+	{
+		// the partners are encoded by String::fromCode, which R/UtfScalars compares with Enc8 for every scalar value
+		static std::vector<String> partner, partnerLo;
+		if ((int)partner.size() != hi + 1)
+		{
+			partner.clear();
+			partnerLo.clear();
+			for (int d = 0; d <= hi; d++) { partner.push_back(String::fromCode(d)); partnerLo.push_back(partner[d].toLowerCase()); }
+		}
+		std::vector<char> in(hi + 1, 0);
+		std::vector<int> cls = c["cls"].ints();
+		for (size_t i = 0; i < cls.size(); i++) if (cls[i] >= 1 && cls[i] <= hi) in[cls[i]] = 1;
+		String s(e8.c_str());
+		String sl = s.toLowerCase();
+		for (int d = 1; d <= hi && m.empty(); d++)
+		{
+			bool a = s.equalsNocase(partner[d]), b = partner[d].equalsNocase(s);
+			bool lowEq = sl == partnerLo[d];
+			if (a != lowEq || b != lowEq)
+			{
+				char buf[200];
+				snprintf(buf, sizeof buf, "equalsNocase(U+%04X, U+%04X) = %d / reversed %d, but equality of the lower-cased forms = %d", code, d, (int)a, (int)b, (int)lowEq);
+				m = buf;
+			}
+			if (a != (in[d] != 0)) tableDiff = true;
+		}
+	}
+	if (!m.empty()) { char h[32]; snprintf(h, sizeof h, "code point U+%04X: ", code); return Outcome::fail(h + m); }
+	if (tableDiff)
+	{
+		char h[64];
+		snprintf(h, sizeof h, "U+%04X: mapping or accepted partners differ from UtfCaseData", code);
+		deviation("case-table", h);
+	}
+	res.nontrivial = up != e8 || lo != e8;
+	return res;
+}
+
+// UTF-16 as the library reads it (spec/MC_UtfWide.tla, UtfLax.tla W8Seq): surrogates at the ends of the buffer, unpaired,
+// reversed; embedded terminator.  Inputs flush against the end of their block (a high surrogate in last position makes
+// the loop read the terminator: the next element would be outside).
+// Well-formed UTF-16 (wf): the result is the standard's; outputs of exactly that size; any difference is a failure.
+// Ill-formed UTF-16: the library documents nothing; required are termination, no access outside the input and outside
+// an output of 4 bytes per unit + terminator (what the String constructors reserve), a terminated result whose
+// length() is the position of the terminator.  A result other than UtfLax's (longest well-formed prefix) is a deviation.
+static Outcome doWide(const vj::Value& c)
+{
+	std::vector<int> w = c["w"].ints(), back = c["back"].ints();
+	std::string b8 = c["b8"].bytes();
+	bool wf = c["wf"].b;
+	size_t wl = 0;
+	while (wl < w.size() && w[wl] != 0) wl++;   // the wide C string: up to the first 0 unit
+	std::string m, dev;
+	char buf[300];
+	do
+	{
+		Flush<wchar_t> in(wl + 1);
+		for (size_t i = 0; i < wl; i++) in.p[i] = (wchar_t)w[i];
+		in.p[wl] = 0;
+		{
+			size_t cap = wf ? b8.size() : 4 * wl;
+			Flush<char> out(cap + 1);
+			int r = utf16toUtf8(in.p, out.p, (int)wl + 1);
+			if (r < 0 || (size_t)r > cap || out.p[r] != 0) { snprintf(buf, sizeof buf, "utf16toUtf8 returned %d for %d units (room for %d bytes) or left the result unterminated", r, (int)wl, (int)cap); m = buf; break; }
+			if (std::string(out.p, (size_t)r) != b8)
+			{
+				snprintf(buf, sizeof buf, "utf16toUtf8 = %s, specification (W8Seq): %s", show(std::string(out.p, (size_t)r)).c_str(), show(b8).c_str());
+				if (wf) { m = buf; break; }
+				dev = buf;
+			}
+		}
+		const vj::Value& lim = c["lim"];
+		for (size_t k = 1; k <= lim.size() && m.empty(); k++)
+		{
+			std::string e = lim[k - 1].bytes();
+			size_t cap = wf ? e.size() : 4 * wl;
+			Flush<char> out(cap + 1);
+			int r = utf16toUtf8(in.p, out.p, (int)k);
+			if (r < 0 || (size_t)r > cap || out.p[r] != 0) { snprintf(buf, sizeof buf, "utf16toUtf8 limited to %d rounds returned %d (room for %d bytes) or left the result unterminated", (int)k, r, (int)cap); m = buf; }
+			else if (std::string(out.p, (size_t)r) != e)
+			{
+				snprintf(buf, sizeof buf, "utf16toUtf8 limited to %d rounds = %s, specification: %s", (int)k, show(std::string(out.p, (size_t)r)).c_str(), show(e).c_str());
+				if (wf) m = buf; else dev = buf;
+			}
+		}
+		if (!m.empty()) break;
+		{
+			String* s = new String(in.p);
+			std::string got8(**s, (size_t)s->length());
+			if ((**s)[s->length()] != 0 || strlen(**s) != (size_t)s->length() || (size_t)s->length() > 4 * wl)
+				m = "String(const wchar_t*): length() " + std::to_string(s->length()) + " is not the position of the terminator / exceeds 4 bytes per unit";
+			else if (got8 != b8)
+			{
+				snprintf(buf, sizeof buf, "String(const wchar_t*) = %s, specification (W8Seq): %s", show(got8).c_str(), show(b8).c_str());
+				if (wf) m = buf; else dev = buf;
+			}
+			if (m.empty())
+			{
+				// and back
+				const wchar_t* d = s->dataw();
+				std::vector<int> got;
+				for (size_t i = 0; d[i] != 0 && i <= 4 * wl; i++) got.push_back((int)d[i]);
+				if (got.size() > 4 * wl) m = "dataw() of the converted string is longer than its bytes";
+				else if (got != back || s->wlength() != (int)back.size())
+				{
+					snprintf(buf, sizeof buf, "dataw() of the converted string = %s, specification: %s", show(got).c_str(), show(back).c_str());
+					if (wf) m = buf; else dev = buf;
+				}
+			}
+			delete s;
+		}
+		if (!m.empty()) break;
+		{
+			Array<wchar_t> a;
+			for (size_t i = 0; i < w.size(); i++) a << (wchar_t)w[i];   // all units, embedded 0 included
+			String s(a);
+			std::string got8(*s, (size_t)s.length());
+			if (strlen(*s) != (size_t)s.length() || (size_t)s.length() > 4 * w.size()) m = "String(Array<wchar_t>): length() is not the position of the terminator / exceeds 4 bytes per unit";
+			else if (got8 != b8)
+			{
+				snprintf(buf, sizeof buf, "String(Array<wchar_t>) = %s, specification (W8Seq): %s", show(got8).c_str(), show(b8).c_str());
+				if (wf && wl == w.size()) m = buf; else dev = buf;
+			}
+		}
+	} while (0);
+	if (!m.empty()) return Outcome::fail("units " + show(w) + ": " + m);
+	if (!dev.empty()) deviation("lax-utf16", show(w) + ": " + dev);
+	Outcome res;
+	res.nontrivial = wl > 0;
+	return res;
+}
+
+// String::fromLocal / toLocal in the two locales modelled by spec/UtfLocal.tla.  The C library is the environment: its
+// behaviour as assumed by the specification is verified first (once per process); the locale is set for the case and
+// put back to "C" afterwards.  Undefined value (def = false): the call must return, in bounds, with a bounded result.
+static std::string envCheck()
+{
+	static std::string verdict;
+	static bool done = false;
+	if (done) return verdict;
+	done = true;
+	wchar_t w[8];
+	if (!setlocale(LC_ALL, "C")) return verdict = "environment: setlocale(\"C\") failed";
+	if (mbstowcs(w, "\xc3\xa9", 4) != (size_t)-1 || mbstowcs(w, "Az", 4) != 2) return verdict = "environment: the C locale of this C library is not ASCII-only";
+	if (!setlocale(LC_ALL, "C.utf8")) return verdict = "environment: no C.utf8 locale";
+	if (mbstowcs(w, "\xc3\xa9", 4) != 1 || w[0] != 0xe9 || mbstowcs(w, "\xf0\x9f\x98\x80", 4) != 1 || w[0] != 0x1f600 ||
+	    mbstowcs(w, "\xff", 4) != (size_t)-1 || mbstowcs(w, "\xed\xa0\x80", 4) != (size_t)-1 || mbstowcs(w, "\xc0\x80", 4) != (size_t)-1)
+		verdict = "environment: C.utf8 is not strict UTF-8 <-> UTF-32 in this C library";
+	setlocale(LC_ALL, "C");
+	return verdict;
+}
+
+static Outcome doLocal(const vj::Value& c)
+{
+	std::string env = envCheck();
+	if (!env.empty()) return Outcome::fail(env);
+	std::string z = c["z"].bytes();
+	static const char* locs[2] = { "C", "C.utf8" };
+	std::string m;
+	for (int li = 0; li < 2 && m.empty(); li++)
+	{
+		const vj::Value& r = c["r"][locs[li]];
+		setlocale(LC_ALL, locs[li]);
+		for (int pl = 0; pl < 3 && m.empty(); pl++)
+		{
+			int pad = padFor(z.size(), pl);
+			std::string full = std::string((size_t)pad, PADC) + z;
+			Flush<char> in(full.size() + 1);
+			memcpy(in.p, full.c_str(), full.size() + 1);
+			String* a = new String(in.p);
+			String f = String::fromLocal(*a);
+			String t = a->toLocal();
+			std::string fs(*f, (size_t)f.length()), ts(*t, (size_t)t.length());
+			if ((*f)[f.length()] != 0 || strlen(*f) != (size_t)f.length()) m = "fromLocal: length() is not the position of the terminator";
+			else if ((*t)[t.length()] != 0 || strlen(*t) != (size_t)t.length()) m = "toLocal: length() is not the position of the terminator";
+			else if (r["f"]["def"].b && fs != std::string((size_t)pad, PADC) + r["f"]["s"].bytes()) m = "fromLocal = " + show(fs.substr(std::min(fs.size(), (size_t)pad))) + ", specification: " + show(r["f"]["s"].bytes());
+			else if (r["t"]["def"].b && ts != std::string((size_t)pad, PADC) + r["t"]["s"].bytes()) m = "toLocal() = " + show(ts.substr(std::min(ts.size(), (size_t)pad))) + ", specification: " + show(r["t"]["s"].bytes());
+			else if (fs.size() > 4 * full.size() || ts.size() > 4 * full.size()) m = "result longer than four times the input";
+			if (m.empty())
+			{
+				// the free functions with the same contract
+				String f2 = localToUtf8(*a), t2 = utf8ToLocal(*a);
+				if (r["f"]["def"].b && std::string(*f2, (size_t)f2.length()) != fs) m = "localToUtf8 = " + show(std::string(*f2, (size_t)f2.length())) + ", fromLocal = " + show(fs);
+				else if (r["t"]["def"].b && std::string(*t2, (size_t)t2.length()) != ts) m = "utf8ToLocal = " + show(std::string(*t2, (size_t)t2.length())) + ", toLocal() = " + show(ts);
+				else if (strlen(*f2) != (size_t)f2.length() || strlen(*t2) != (size_t)t2.length()) m = "localToUtf8 / utf8ToLocal: length() is not the position of the terminator";
+			}
+			if (!m.empty()) m = std::string("locale ") + locs[li] + ": " + m;
+			delete a;
+		}
+	}
+	setlocale(LC_ALL, "C");
+	if (!m.empty()) return Outcome::fail("local text " + show(z) + ": " + m);
+	Outcome res;
+	res.nontrivial = !z.empty();
+	return res;
+}
+
 static Outcome runCase(const vj::Value& c)
 {
 	const std::string& k = c["k"].s();
+	g_caseDeviations.clear();
 	if (k == "blk") return doBlock(c);
 	if (k == "seq") return doSeq(c);
 	if (k == "bytes") return doBytes(c);
+	if (k == "cp") return doCp(c);
+	if (k == "wide") return doWide(c);
+	if (k == "local") return doLocal(c);
 	return Outcome::fail("harness: unknown case kind");
 }
 
